@@ -124,7 +124,7 @@ Example c08_witness_806 : c08_trace_check (c08_ex_cfg Acceptor) c08_ex_806 = [(2
 Proof. exact c08_ex_806_run. Qed.
 Example c08_witness_803_804 : c08_trace_check (c08_ex_cfg Acceptor) c08_ex_803_804 = [(4%nat, 803); (4%nat, 804)].
 Proof. exact c08_ex_803_804_run. Qed.
-Example c08_witness_802 : c08_trace_check (c08_ex_cfg Acceptor) c08_ex_802 = [(4%nat, 802)].
+Example c08_witness_802 : c08_trace_check (c08_ex_cfg Acceptor) c08_ex_802 = [(5%nat, 802)].
 Proof. exact c08_ex_802_run. Qed.
 (* non-vacuity of the proved clauses: the second witness connects, writes (a Logon, later a Logout) and closes *)
 Example c08_trace_theorem_nontrivial :
